@@ -6,6 +6,7 @@
 //   - a cold lookup (new L2 cache + new registry object = disk truth) and
 //   - an independent raw reader of the *.reg segment files (rawreader.go; shares nothing with
 //     fs/ or encoding/)
+//
 // are compared with a trivial map model. Ids are constructed so that they collide in block and slot.
 package main
 
@@ -16,7 +17,6 @@ import (
 	"fmt"
 	"os"
 	"path/filepath"
-	"runtime/pprof"
 	"strings"
 	"syscall"
 	"time"
@@ -344,7 +344,7 @@ type state struct {
 }
 
 type stats struct {
-	crossChecked int
+	crossChecked                  int
 	states, transitions, maxDepth int
 	dupStates, divergent          int
 	opCalls, lookups              int64
@@ -390,6 +390,15 @@ func (w *world) where(raw []rawEntry, id sop.UUID) string {
 		return "ideal-slot"
 	}
 	return "displaced-in-block"
+}
+
+func (w *world) anyDisplaced(raw []rawEntry) bool {
+	for _, id := range w.ids {
+		if whereRank[w.where(raw, id)] >= 2 {
+			return true
+		}
+	}
+	return false
 }
 
 // whereWorst: the most "interesting" location class among the targets of a batch operation.
@@ -528,8 +537,10 @@ func explore(c config, run *ev.Run, dir string, maxStates int) stats {
 	sampled := 0
 	reported := map[string]bool{}
 	defer os.RemoveAll(dir + "_x")
+	newAtLastLevel := 0
 	for depth := 1; depth <= c.Depth && len(frontier) > 0; depth++ {
 		var next []state
+		newAtLastLevel = 0
 		for _, s := range frontier {
 			for _, o := range w.enabled(s.m) {
 				// --- replay the shortest path on a fresh folder (or restore its files), then one more operation ---
@@ -735,6 +746,7 @@ func explore(c config, run *ev.Run, dir string, maxStates int) stats {
 				seen[key] = true
 				st.states++
 				st.maxDepth = depth
+				newAtLastLevel++
 				if hasDup {
 					st.dupStates++
 				}
@@ -745,7 +757,7 @@ func explore(c config, run *ev.Run, dir string, maxStates int) stats {
 				if depth < c.Depth {
 					next = append(next, state{path: path, m: m, removed: removed, raw: raw, segs: segs})
 				}
-				if (st.states%997 == 5 || (st.maxSegment > 1 && sampled == 0)) && sampled < 3 {
+				if sampled < 2 && depth >= 4 && (hasDup || st.maxSegment > 1 || w.anyDisplaced(raw)) {
 					sampled++
 					run.Sample(map[string]any{"config": c.Name, "path": fmt.Sprint(path), "disk": disk()})
 				}
@@ -757,7 +769,7 @@ func explore(c config, run *ev.Run, dir string, maxStates int) stats {
 		}
 		frontier = next
 	}
-	st.fixpoint = len(frontier) == 0
+	st.fixpoint = newAtLastLevel == 0 // the last explored level produced no new state: the bounded space is closed
 	return st
 }
 
@@ -830,7 +842,7 @@ func configsFor(thorough bool) []config {
 	}
 	cs := []config{
 		// three ids with the same block and ideal slot + the id whose ideal slot is where displaced entries land (slot 0)
-		{Name: "same-slot-3+landing-0", IDs: append(same3(3), idSpec{"D", fillBlock, 0, 4}), NoLocks: true, Depth: d(6, 8), MaxVer: 2},
+		{Name: "same-slot-3+landing-0", IDs: append(same3(3), idSpec{"D", fillBlock, 0, 4}), NoLocks: true, Pairs: true, Depth: d(6, 8), MaxVer: 2},
 		{Name: "same-slot-3+landing-0/updates", IDs: append(same3(3)[:2], idSpec{"D", fillBlock, 0, 4}), NoLocks: true, Pairs: true, Depth: d(7, 9), MaxVer: 4},
 		// ideal slot 0 (displaced entries land right after it), neighbours 1 and 65
 		{Name: "same-slot-0+nbrs", IDs: append(same3(0), idSpec{"D", fillBlock, 1, 4}, idSpec{"E", fillBlock, 65, 5}), Depth: d(6, 8), MaxVer: 1},
@@ -853,7 +865,7 @@ func configsFor(thorough bool) []config {
 	if thorough {
 		cs = append(cs,
 			config{Name: "mod-max-750000", Mod: fs.MaximumModValue, IDs: append(same3(3), idSpec{"D", 749999, 65, 4}), Depth: 6, MaxVer: 2},
-			config{Name: "three-full-blocks-overflow", IDs: []idSpec{{"A", fillBlock, 3, 1}, {"B", fillBlock, 3, 2}}, Fillers: 3, Snapshot: true, Depth: 8, MaxVer: 1},
+			config{Name: "three-full-blocks-overflow", IDs: []idSpec{{"A", fillBlock, 3, 1}, {"B", fillBlock, 3, 2}}, Fillers: 3, Snapshot: true, Depth: 7, MaxVer: 1},
 			config{Name: "six-colliders", IDs: []idSpec{{"A", fillBlock, 3, 1}, {"B", fillBlock, 3, 2}, {"C", fillBlock, 3, 3}, {"D", fillBlock, 3, 4}, {"E", fillBlock, 0, 5}, {"F", fillBlock, 1, 6}}, Depth: 8, MaxVer: 1},
 		)
 	}
@@ -869,11 +881,6 @@ func main() {
 		maxStates = 400000
 	}
 	if job := ev.Job(); job != "" {
-		if pf := os.Getenv("C21_PROF"); pf != "" {
-			f, _ := os.Create(pf)
-			pprof.StartCPUProfile(f)
-			defer pprof.StopCPUProfile()
-		}
 		var idx int
 		fmt.Sscan(job, &idx)
 		c := configs[idx]
@@ -887,7 +894,6 @@ func main() {
 		run.Set("cpu_s", fmt.Sprintf("%.1f", float64(ru.Utime.Sec+ru.Stime.Sec)+float64(ru.Utime.Usec+ru.Stime.Usec)/1e6))
 		run.Set("states_transitions", fmt.Sprintf("%d/%d", r.states, r.transitions))
 		os.RemoveAll(dir)
-		pprof.StopCPUProfile()
 		run.Set("states", r.states)
 		run.Set("transitions", r.transitions)
 		run.Set("registry_write_calls", r.opCalls)
@@ -916,7 +922,7 @@ func main() {
 	cov["evaluations"] = cov["transitions"]
 	cov["distinct_nontrivial"] = cov["collision_transitions"]
 	run.Set("alphabet", []string{"Add(id)", "Update(id: version+1, new physical id B, flipped active flag, new timestamp)", "UpdateNoLocks(id)", "Remove(id)", "Remove(absent id)", "UpdateNoLocks([A,B]) in one payload", "Remove([A,B]) in one payload", "Fill(k): Add 66 filler ids of block 7 (ideal slots 0..65) in one payload", "Unfill(k): Remove those 66 ids in one payload"})
-	run.Set("rule", "per configuration (a set of ids constructed to collide: equal high64%mod and equal low64%66, same block/other slot, block-filling sets of 66) a BFS over the real fs.NewRegistry on /dev/shm; state = sorted set of (segment file, block, slot, 62-byte record) parsed by an independent reader of the .reg files; successor = replay of the shortest path on a fresh folder + one operation; after EVERY transition: warm Get, cold Get (new L2 cache + new registry object) for every id singly and batched, raw scan (CRC of every written block, at most one slot per id, slot content = last written handle, nothing for absent ids). distinct_nontrivial counts the transitions whose target id was displaced from its ideal slot / lived in an overflow segment / was duplicated, whose ideal slot was occupied by another id (Add), or that fill/empty a whole block")
+	run.Set("rule", "per configuration (a set of ids constructed to collide: equal high64%mod and equal low64%66, same block/other slot, block-filling sets of 66) a BFS over the real fs.NewRegistry on /dev/shm; state = sorted set of (segment file, block, slot, 62-byte record) parsed by an independent reader of the .reg files; successor = replay of the shortest path on a fresh folder + one operation (block-filling configurations: the parent's segment files are restored from the recorded block content and ONE operation is applied; a systematic subset of these successors and every reported violation are re-derived by a full replay and must give the identical disk content); after EVERY transition: warm Get, cold Get (new L2 cache + new registry object) for every id singly and batched, raw scan (CRC of every written block, at most one slot per id, slot content = last written handle, nothing for absent ids). distinct_nontrivial counts the transitions whose target id was displaced from its ideal slot / lived in an overflow segment / was duplicated, whose ideal slot was occupied by another id (Add), or that fill/empty a whole block")
 	run.Assumption("only legal API usage is enumerated: Add of an absent id, Update/UpdateNoLocks/Remove of a present id, plus Remove of an absent id (result unspecified, disk must not change); Add of a present id and Update of an absent id are outside the statement")
 	run.Assumption("single process, no concurrency, no crashes (C20/C22 cover those); versions per id bounded by MaxVer and sequences by Depth (per_job.*.fixpoint_reached tells whether the bounded space was closed)")
 	run.Assumption("a transition after which model and implementation disagree (wrong lookup, failed legal call) is reported and NOT expanded further; states that only violate the raw one-slot-per-id invariant are reported and expanded")
